@@ -77,6 +77,79 @@ def _resolved(fn, e, depth=4):
     return e
 
 
+_NP_ALLOC = {"empty", "zeros", "ones", "full", "array", "asarray", "empty_like", "zeros_like", "ones_like", "full_like", "arange",
+             "linspace", "copy", "ascontiguousarray"}
+
+
+def _basis_integrals_are_arrays(chk, method):
+    """Is `self._basis.integrals`, read in a method of the interpolator class, a numpy array?  -> (True / None, how)
+    Established (never guessed) from: (1) every store to `self._basis` in the class of `method` takes a parameter that the same function
+    asserts / annotates to be a `BSplines`, the class imported from the spline module; (2) `BSplines.integrals` is a property without
+    setter returning `self.<a>` (or the attribute itself); (3) every store to `self.<a>` in BSplines is None (slicing it raises, so the
+    flow does not get to an in-place update) or the result of a numpy allocation; (4) no class of the spline module derives from it."""
+    try:
+        imod = chk.mod(U.INTERP)
+        icls = next((c for c in ast.walk(imod.tree) if isinstance(c, ast.ClassDef) and any(x is method for x in ast.walk(c))), None)
+        if icls is None:
+            return None, "the class of the method was not found"
+        if not any(isinstance(n, ast.ImportFrom) and (n.module or "").split(".")[-1] == "splines" and
+                   any(a.name == "BSplines" and a.asname in (None, "BSplines") for a in n.names) for n in imod.tree.body):
+            return None, "`BSplines` is not imported from the spline module"
+        stores = 0
+        for f_ in [n for n in ast.walk(icls) if isinstance(n, ast.FunctionDef)]:
+            for st in ast.walk(f_):
+                tg = st.targets if isinstance(st, ast.Assign) else [st.target] if isinstance(st, (ast.AnnAssign, ast.AugAssign)) else []
+                flat = [y for t in tg for y in (ast.walk(t) if isinstance(t, (ast.Tuple, ast.List)) else [t])]
+                if not any(isinstance(t, ast.Attribute) and src(t) == "self._basis" for t in flat):
+                    continue
+                v = getattr(st, "value", None)
+                if not (isinstance(st, ast.Assign) and len(tg) == 1 and isinstance(v, ast.Name) and v.id in {a.arg for a in f_.args.args}):
+                    return None, f"`{src(st)[:50]}`: what the basis of the interpolator is was not followed"
+                ann = next((a.annotation for a in f_.args.args if a.arg == v.id), None)
+                asserted = any(isinstance(s_, ast.Assert) and isinstance(s_.test, ast.Call) and src(s_.test.func) == "isinstance"
+                               and len(s_.test.args) == 2 and src(s_.test.args[0]) == v.id and src(s_.test.args[1]) == "BSplines"
+                               and s_.lineno < st.lineno for s_ in f_.body)
+                if not (asserted or (ann is not None and src(ann) == "BSplines")):
+                    return None, f"`{v.id}` is not asserted / annotated to be a BSplines"
+                if any(isinstance(n, ast.Name) and n.id == v.id and isinstance(n.ctx, ast.Store) for n in ast.walk(f_)):
+                    return None, f"`{v.id}` is rebound in {f_.name}"
+                stores += 1
+        if not stores:
+            return None, "no store to `self._basis` in the interpolator class"
+        smod = chk.mod(U.SPLINES)
+        scls = smod.cls("BSplines")
+        if any(isinstance(c, ast.ClassDef) and c is not scls and any("BSplines" in src(b_) for b_ in c.bases) for c in ast.walk(smod.tree)):
+            return None, "a class derives from BSplines: which `integrals` is read was not followed"
+        attr = "integrals"
+        props = [n for n in scls.body if isinstance(n, ast.FunctionDef) and n.name == "integrals"]
+        if props:
+            body = [s_ for s_ in props[0].body if not (isinstance(s_, ast.Expr) and isinstance(s_.value, ast.Constant))]
+            if len(props) != 1 or [src(d) for d in props[0].decorator_list] != ["property"] or len(body) != 1 or \
+                    not (isinstance(body[0], ast.Return) and isinstance(body[0].value, ast.Attribute) and src(body[0].value.value) == "self"):
+                return None, "`BSplines.integrals` is not a plain read-only property returning a stored attribute"
+            attr = body[0].value.attr
+        kinds = []
+        for st in ast.walk(scls):
+            tg = st.targets if isinstance(st, ast.Assign) else [st.target] if isinstance(st, (ast.AnnAssign, ast.AugAssign)) else []
+            flat = [y for t in tg for y in (ast.walk(t) if isinstance(t, (ast.Tuple, ast.List)) else [t])]
+            if not any(isinstance(t, ast.Attribute) and src(t) == f"self.{attr}" for t in flat):
+                continue
+            v = getattr(st, "value", None)
+            if isinstance(st, ast.Assign) and all(isinstance(t, ast.Attribute) for t in tg) and isinstance(v, ast.Constant) and v.value is None:
+                continue
+            if isinstance(st, ast.Assign) and all(isinstance(t, ast.Attribute) for t in tg) and isinstance(v, ast.Call) and \
+                    isinstance(v.func, ast.Attribute) and src(v.func.value) in ("np", "numpy") and v.func.attr in _NP_ALLOC:
+                kinds.append(f"np.{v.func.attr}")
+                continue
+            return None, f"`{src(st)[:50]}` in BSplines: what is stored was not followed"
+        if not kinds:
+            return None, f"no allocation of `self.{attr}` found in BSplines"
+        return True, (f"the basis of the interpolator is a BSplines and BSplines.integrals is `self.{attr}`, "
+                      f"a numpy array ({', '.join(sorted(set(kinds)))})")
+    except (AnalysisError, KeyError, StopIteration) as e:
+        return None, f"not followed ({e})"
+
+
 # ------------------------------------------------------------------ whole-array (vectorised) kernels
 class Nd:
     """whole-array value seen through its generic element: f(index tuple) -> element; ext[k] = extent of axis k (1 for an axis
@@ -2658,6 +2731,17 @@ def run(chk):
     badq = None
     if not okq and len(qc) == 1:
         v_ = qc[0].value
+        if isinstance(v_, ast.Name):
+            # the weights pass through a local: followed only when the local is bound once and its only other uses are
+            # `<local>.setflags(...)` statements (which change the writeable flag, not the values); anything else may modify them
+            uses_ = [n for n in ast.walk(init) if isinstance(n, ast.Name) and n.id == v_.id and n is not v_]
+            defs_ = [n for n in ast.walk(init) if isinstance(n, ast.Assign) and len(n.targets) == 1 and any(u is n.targets[0] for u in uses_)]
+            flag_ = [n.value.func.value for n in ast.walk(init) if isinstance(n, ast.Expr) and isinstance(n.value, ast.Call)
+                     and isinstance(n.value.func, ast.Attribute) and n.value.func.attr == "setflags"
+                     and isinstance(n.value.func.value, ast.Name)]
+            if len(defs_) == 1 and v_.id not in {a.arg for a in init.args.args} and \
+                    all(u is defs_[0].targets[0] or any(u is f_ for f_ in flag_) for u in uses_):
+                v_ = defs_[0].value
         # resolve a local interpolator: interp = SplineInterpolator1D(<x>); self._quad_coeffs = interp.get_quadrature_coefficients()
         if isinstance(v_, ast.Call) and isinstance(v_.func, ast.Attribute) and v_.func.attr == "get_quadrature_coefficients":
             recv = v_.func.value
@@ -2717,6 +2801,32 @@ def run(chk):
            "the stored basis integrals are only read (copies are modified)" if not muts else
            "; ".join(d for _, d in muts) + " - the next interpolator/DensityFinder built on the same spline gets wrong weights",
            file=U.INTERP, func="SplineInterpolator1D.get_quadrature_coefficients")
+    # possible mutations the engine could not establish (alias liveness / view-or-copy not followed): undecided, not HOLDS
+    for node, desc, why in getattr(muts, "undecided", ()):
+        okm, whym = None, f"{desc}: not established ({why})"
+        # the engine leaves "a slice is a view of an array, a copy of a list" open when it cannot see what the stored object is: the
+        # rule establishes it across the two classes (the interpolator's basis is a BSplines, whose `integrals` is a numpy array)
+        if "a view for an array, a copy for a list" in why and "`self._basis.integrals`" in why:
+            est, how = _basis_integrals_are_arrays(chk, gq)
+            if est:
+                okm = False
+                whym = (f"{desc} ({how}: the slice is a view, not a copy) - the next interpolator/DensityFinder built on the same "
+                        "spline gets wrong weights")
+            else:
+                whym += f"; {how}"
+        from .C17 import _arith_inplace_on_slice
+        if okm is None and _arith_inplace_on_slice(node, why):
+            okm = False
+            whym = (f"{desc}: `{src(node)[:50]}` updates a slice in place with an operator that lists do not have, so the slice is one of a "
+                    "numpy array: a view - the next interpolator/DensityFinder built on the same spline gets wrong weights")
+        chk.ob("G2-no-shared-mutation", node, f"get_quadrature_coefficients vs basis.integrals: {desc}"[:160], okm, whym,
+               file=U.INTERP, func="SplineInterpolator1D.get_quadrature_coefficients")
+    from .C17 import unfollowed_view_writes
+    done = [m[0] for m in muts] + [m[0] for m in getattr(muts, "undecided", ())]
+    for node, desc in unfollowed_view_writes(gq, lambda s: s.endswith(".integrals") or s.endswith("._integrals"), done):
+        chk.ob("G2-no-shared-mutation", node, f"get_quadrature_coefficients vs basis.integrals: {desc}"[:160], None,
+               f"{desc}: whether the stored basis integrals are modified is not followed", file=U.INTERP,
+               func="SplineInterpolator1D.get_quadrature_coefficients")
     quadrature_system(chk)
     chk.floor("F3-", 3)
     # the co-indexing obligations come from the element loops of the kernels: whole-array kernels have none (their axis
